@@ -119,7 +119,7 @@ def shard(ctx):
         if x < 0.85:
             kind, text = hostile.hostile_text(rng)
         else:
-            kind, text = 'grammar', gen.text()
+            kind, text = 'grammar', hostile.decorate(rng, gen.text())
         check_text(rec, kind, text, full=(i % 3 == 0))
         if i % 10 == 0:
             check_interleaved(rec, text, hostile.hostile_text(rng)[1])
